@@ -124,6 +124,15 @@ def run(pid, tier):
             rng.shuffle(order)
             recs.append(run_case(f"t{k}", cands, alt, order, rng))
             k += 1
+    # the smallest contest: two candidates, every set of up to 3 of the 6 possible assertions, both alternative winners
+    two = ["A", "B"]
+    pool2 = [{"kind": "NEB", "w": w, "l": l, "elim": []} for w in two for l in two if w != l] + \
+            [{"kind": "NEN", "w": c, "l": c, "elim": list(E)} for c in two for E in ([], [x for x in two if x != c])]
+    for r in range(0, 4):
+        for atoms in itertools.combinations(pool2, r):
+            for alt in two:
+                recs.append(run_case(f"w{k}", two, alt, [dict(a) for a in atoms], rng))
+                k += 1
     # beyond the bound: larger sets over 3 candidates (sufficient, redundant, inconsistent ones), and 4 candidates
     def all_atoms(cs):
         out = [{"kind": "NEB", "w": w, "l": l, "elim": []} for w in cs for l in cs if w != l]
